@@ -334,7 +334,8 @@ def handle (d : DSt) (line : String) : DSt × String :=
   | "U" :: rest => handleU d rest
   | "C" :: rest => handleC d rest
   | "P" :: rest => handleP d rest
-  | "X" :: _ => (d, "inconclusive")  -- a history the harness abandoned (its goroutines were not scheduled in time)
+  | "X" :: _ => (d, "inconclusive")
+  | "H" :: _ => (d, "no-such-behaviour: every enabled step of the model can be taken")  -- a hang of the real code  -- a history the harness abandoned (its goroutines were not scheduled in time)
   | _ => (d, "bad-op")
 
 def main : IO Unit := lineLoopS ({} : DSt) handle
